@@ -376,6 +376,7 @@ type c13Resp struct {
 	close   bool   // close the connection after writing
 	early   bool   // answer right after the request head, without reading the request body
 	pieces  int    // write raw in this many pieces
+	upgrade bool   // raw is a 101 response: afterwards the connection speaks a line protocol (each line is answered in upper case, "bye" ends it)
 }
 
 type c13Attempt struct {
@@ -601,6 +602,20 @@ func (p *c13Peer) serve(c net.Conn) {
 		n := script.pieces
 		if n < 1 {
 			n = 1
+		}
+		if script.upgrade {
+			if _, err := c.Write([]byte(raw)); err != nil {
+				return
+			}
+			for {
+				line, err := br.ReadString('\n')
+				if err != nil {
+					return
+				}
+				if _, err := c.Write([]byte(strings.ToUpper(line))); err != nil || line == "bye\n" {
+					return
+				}
+			}
 		}
 		if live != nil {
 			// interactive download: the head (chunked framing announced), then one chunk per
